@@ -19,10 +19,13 @@ def run(ctx):
     r0, grid = chk.check_grid(thorough, seed)
     items = grid + accepted.boundary_items() + chk.rule_items() + chk.gen_prog_items(seed + 21, 1200 if thorough else 150)
     r = accepted.check(items)
+    rr = accepted.check_reach()
+    r["violations"] += rr["violations"]
+    r["evaluations"] += rr["evaluations"]
     r["distinct_nontrivial"] = r["accepted"]
     r["rule"] = ("operand grid x modes, boundary programs, rule programs, generated programs; non-trivial = accepted by the checker and "
                  "therefore exercised through listing / assembling / running / debugger start-up")
-    r["streams"] = {"accepted": r["evaluations"]}
+    r["streams"] = {"accepted": r["evaluations"] - rr["evaluations"], "reach": rr["evaluations"]}
     r["distribution"] = {"accepted": r["accepted"], "rejected": r["evaluations"] - r["accepted"]}
     r["samples"] = [{"text": accepted.BOUNDARY_PROGRAMS[0], "mode": "assemble"}]
     return r
@@ -30,5 +33,9 @@ def run(ctx):
 
 def replay(obj):
     case = obj["case"]
+    if obj.get("stream") == "reach":
+        rr = accepted.check_reach()
+        v = [x for x in rr["violations"] if x["case"] == case]
+        return v[0]["what"] if v else None
     ok, problem = accepted.exercise(case["text"], case.get("mode", ""), case.get("big_stack", False), case.get("no_debug_ops", False))
     return problem
